@@ -23,7 +23,7 @@ from .model import names_in, unparse
 Fact = tuple[bool, str]
 
 
-MAX_PARTS = 8  # trace partitioning: a state is a small set of alternatives (must, may); beyond this they are merged
+MAX_PARTS = 16  # trace partitioning: a state is a small set of alternatives (must, may); beyond this they are merged
 
 
 class State:
